@@ -24,11 +24,13 @@ class Context:
         self.traces_validated = 0
         self.matrix = {}
         self.distribution = {}
+        self.changed_source = []
+        self.budget = 1
 
     def n(self, quick, thorough):
         if self.n_override is not None:
             return self.n_override
-        return quick if self.tier == "quick" else thorough
+        return quick * self.budget if self.tier == "quick" else thorough
 
 
 # ---- footprints: state fields whose model/code agreement a property's theorem rests on -------
